@@ -111,6 +111,9 @@ def gen(rng, *, ia: bool = True, time: bool = True, conditionals: bool = True, c
         a = rng.choice(variables)
         comps.append({"kind": "reaction", "name": "vms", "fn": L(tb.t_modconst), "args": [a, rng.choice(params)], "stoich": {a: -1.0}})
         comps.append({"kind": "derived", "name": "dma", "fn": L(tb.t_modattr), "args": [rng.choice(variables), rng.choice(params)]})
+        if rng.random() < 0.6:
+            comps.append({"kind": "derived", "name": "dcn", "fn": L(tb.t_constnames), "args": [rng.choice(variables), rng.choice(params)]})
+            feats.add("attributes_named_like_mathematical_constants")
         touched.add(a)
         feats.add("module_state")
     if not untranslatable and rng.random() < 0.2:
